@@ -37,3 +37,21 @@ def readKB (o : Order) (d : Bytes) (base : Nat) : List Field → (List Int → R
   | f :: fs, k => (readFieldB o d base f).bind fun v => readKB o d base fs fun vs => k (v :: vs)
 
 end Drx.Layout
+
+namespace Drx.Layout
+open Drx
+
+theorem readKB_byte (o : Order) (d : Bytes) (base : Nat) (nm : String) (off : Nat) (fs : List Field) (k : List Int → R α) :
+    readKB o d base (⟨nm, off, 1, false⟩ :: fs) k
+      = (byteAt d (base + off)).bind fun b => readKB o d base fs fun vs => k ((b.toNat : Int) :: vs) := by
+  simp only [readKB, readFieldB, and_self, ↓reduceIte]
+  cases byteAt d (base + off) <;> rfl
+
+theorem readKB_signed (o : Order) (d : Bytes) (base : Nat) (nm : String) (off w : Nat) (fs : List Field) (k : List Int → R α) :
+    readKB o d base (⟨nm, off, w, true⟩ :: fs) k
+      = (getS o w d (base + off)).bind fun v => readKB o d base fs fun vs => k (v :: vs) := by
+  simp [readKB, readFieldB, readField]
+
+theorem readKB_nil (o : Order) (d : Bytes) (base : Nat) (k : List Int → R α) : readKB o d base [] k = k [] := rfl
+
+end Drx.Layout
